@@ -281,7 +281,11 @@ def run_case(case, ctx):
     try:
         with warnings.catch_warnings():
             warnings.simplefilter("ignore")
-            {"entrypoints": _entrypoints, "contours": _contours, "history": _history, "idgraph": _idgraph, "template": _template}[case["kind"]](case, ctx)
+            try:
+                {"entrypoints": _entrypoints, "contours": _contours, "history": _history, "idgraph": _idgraph, "template": _template}[case["kind"]](case, ctx)
+            except _ReportedFitFailure as e:
+                ctx.count("c19.reported-fit-failure-skipped")
+                ctx.notes["skipped"] = str(e)
     finally:
         plt.close("all")
 
@@ -403,9 +407,18 @@ def _data_for(name, rng, n=3000):
     return np.c_[hs, tz]
 
 
+class _ReportedFitFailure(Exception):
+    pass
+
+
 def _fit(model, fd, data):
     with M.quiet():
-        model.fit(data, copy.deepcopy(fd) if fd is not None else None)
+        try:
+            model.fit(data, copy.deepcopy(fd) if fd is not None else None)
+        except RuntimeError as e:
+            if "Failed to fit dependence function" in str(e) or "too few intervals" in str(e):
+                raise _ReportedFitFailure(str(e)[:100]) from e  # documented, reported failure on the synthetic data
+            raise
 
 
 def _params(model):
